@@ -46,6 +46,33 @@ def blw_minmax(case):
     return [str(box.margin_left), str(box.margin_right), str(box.width), str(box.position_x)]
 
 
+USED_NAMES = ['margin_left', 'margin_right', 'margin_top', 'margin_bottom', 'padding_left', 'padding_right',
+              'padding_top', 'padding_bottom', 'border_left_width', 'border_right_width', 'border_top_width',
+              'border_bottom_width', 'width', 'min_width', 'max_width', 'height', 'min_height', 'max_height']
+LENGTH_NAMES = ['margin_left', 'margin_right', 'margin_top', 'margin_bottom', 'padding_left', 'padding_right',
+                'padding_top', 'padding_bottom', 'width', 'min_width', 'max_width', 'height', 'min_height', 'max_height']
+
+
+def resolve_pct(case):
+    """resolve_percentages on a stub box with exact rationals.  case: dict(kw, collapse, has=[l, r, t, b],
+    lengths=[14 x 'auto' | ['px', v] | ['%', v]], borders=[l, r, t, b], cbw, cbh ('auto' or number))
+    -> the 18 used values as strings."""
+    from weasyprint.layout.percent import resolve_percentages
+    from weasyprint.css.properties import Dimension
+    style = {'box_sizing': case['kw'], 'border_collapse': 'collapse' if case['collapse'] else 'separate'}
+    for name, v in zip(LENGTH_NAMES, case['lengths']):
+        style[name] = 'auto' if v == 'auto' else Dimension(Fraction(v[1]), v[0])
+    for side, v in zip(('left', 'right', 'top', 'bottom'), case['borders']):
+        style['border_%s_width' % side] = Fraction(v)
+    box = SimpleNamespace(style=style)
+    for side, h in zip(('left', 'right', 'top', 'bottom'), case['has']):
+        if h:
+            setattr(box, 'border_%s_width' % side, Fraction(99))
+    cb = (Fraction(case['cbw']), 'auto' if case['cbh'] == 'auto' else Fraction(case['cbh']))
+    resolve_percentages(box, cb)
+    return [str(getattr(box, n)) for n in USED_NAMES]
+
+
 # ------------------------------------------------------------------ full renders: geometry of block trees
 
 def _walk(box, out, parent=None):
